@@ -171,9 +171,10 @@ def r1(ctx, H):
                 k = _plus_const(r, lambda v: estr(v) == lenv)
                 if k is not None:
                     ks.append((k, o, b))
-    if len(ks) != 2:
-        raise AnalysisBroken('qb_rb_chunk_alloc: expected two comparisons space_free < len + K, found %d' % len(ks))
-    ctx.check('R1', 'alloc-margins-equal', ks[0][0] == ks[1][0], al, 'both modes compare with len + %d' % ks[0][0],
+    if not ks:
+        raise AnalysisBroken('qb_rb_chunk_alloc: no comparison space_free < len + K found')
+    # one comparison per mode, or one shared by both modes
+    ctx.check('R1', 'alloc-margins-equal', len({k for (k, _o, _b) in ks}) == 1, al, '%d comparison(s) with len + %d' % (len(ks), ks[0][0]),
               'overwrite and normal mode use different margins: %s' % [k for (k, _o, _b) in ks])
     k_alloc = ks[0][0]
     for (k, o, b) in ks:
